@@ -213,6 +213,17 @@ P["C20"] = {
 
 for pid in ("C07", "C08", "C09", "C10", "C16", "C17", "C18", "C19", "C12", "C13", "C14", "C20"):
     P[pid].setdefault("thorough", {})["cross_solver"] = "z3-new"
+# The catalogue-sized properties: the deeper harness bounds (verifThorough) were not run to completion on this
+# machine within 50 minutes per property, so they are not registered. Their thorough tier explores the same
+# bounded space as the quick tier, replays more paths natively and re-decides everything with a second solver.
+for pid in ("C01", "C02", "C03", "C04", "C05", "C06", "C11", "C14", "C15", "C20"):
+    th = P[pid].setdefault("thorough", {})
+    th["deep_bounds"] = False
+    th["cross_solver"] = "z3-new"
+    th.pop("runs", None)
+    if "max_paths" in P[pid].get("common", {}):
+        th["max_paths"] = P[pid]["common"]["max_paths"]
+    P[pid]["thorough_note"] = "thorough tier = the quick tier's bounds, more paths replayed natively, every query re-decided by z3 5.1 and the verdicts diffed; the deeper bounds written into the harnesses (verifThorough) did not finish within 50 minutes per property on this machine and are not registered"
 
 json.dump(P, open(os.path.join(V, "props.json"), "w"), indent=1)
 print("properties configured:", sorted(P))
